@@ -36,7 +36,7 @@ CHUNK = 2
 SETTINGS = [(1e-6, 1e-6), (1e-6, 1e-10), (1e-8, 1e-10)]
 FLOORS = {
     "quick": {"distinct_nontrivial": 400,
-              "mon": {"findMatching": 700, "jouguet_oracle": 60, "cut_configs": 40,
+              "mon": {"findMatching": 700, "jouguet_oracle": 60, "cut_configs": 25,
                       "template.findMatching": 150},
               "cls": {"deflagration": 80, "hybrid": 50, "detonation": 80,
                       "cut:fastestDeflag": 15, "cut:slowestDeton": 6,
